@@ -346,3 +346,58 @@ def _bosonic_reduced_dm(h):
         ok = ok and c[2].get("cutoff") == 3 and c[2].get("normalize") is False
     h.ensure("exactly-the-requested-modes-in-xxpp-order-reach-thewalrus", ok, bounded_shape=True)
     h.ensure("weighted-sum-of-the-component-matrices", eqv(out.value, sum(w[i] * E[i] for i in range(K))), bounded_shape=True)
+
+
+# ---------------------------------------------------------------- marginal: the density of x_phi for every component
+class _ExpSqrt:
+    """the module's numpy with exp / sqrt replaced by recorders (their ARGUMENTS are the clauses; values are fresh symbols)"""
+    def __init__(self, real_np, h):
+        self._np, self._h = real_np, h
+        self.exp_args, self.sqrt_args = [], []
+
+    def __getattr__(self, name):
+        return getattr(self._np, name)
+
+    def exp(self, x):
+        self.exp_args.append(x)
+        return self._h.real(f"expval{len(self.exp_args)}")
+
+    def sqrt(self, x):
+        self.sqrt_args.append(x)
+        v = self._h.real(f"sqrtval{len(self.sqrt_args)}")
+        self._h.require(v > 0)
+        return v
+
+    def real_if_close(self, x, *a, **k):
+        return x
+
+
+@proof("C16", ST + ":BaseBosonicState.marginal", native=_nat("marginal"))
+def _bosonic_marginal(h):
+    """the marginal along x_phi = cos(phi) x + sin(phi) p is, component by component, the Gaussian density with the mean and
+    the variance of THAT quadrature - the same rotated moments quad_expectation uses: exponent -(x - m_i)^2 / (2 v_i),
+    normalisation sqrt(2 pi v_i), with m_i = c mu_x + s mu_p and v_i = c^2 V_xx + c s (V_xp + V_px) + s^2 V_pp"""
+    K, M = B_SHAPES[h.eng.choose(len(B_SHAPES), "shape")]
+    st, obj, w, mus, covs = bstate(h, K, M)
+    mode = h._reg("mode", h.eng.choose(M, "mode"))
+    phi, x = h.real("phi"), h.real("x")
+    a, b = 2 * mode, 2 * mode + 1
+    m = h.eng.math
+    c, s = m.cos(phi), m.sin(phi)
+    mi = [c * mus[i, a] + s * mus[i, b] for i in range(K)]
+    vi = [c * c * covs[i, a, a] + c * s * (covs[i, a, b] + covs[i, b, a]) + s * s * covs[i, b, b] for i in range(K)]
+    for i in range(K):
+        h.require(vi[i] > 0)
+    npx = _ExpSqrt(st.np, h)
+    with h.stubbed(st, "np", npx):
+        out = h.call(obj.marginal, mode, x, phi)
+    h.ensure("no-exception", out.returned, bounded_shape=True)
+    if not out.returned:
+        return
+    h.ensure("one-density-per-component", len(npx.exp_args) == K and len(npx.sqrt_args) == K, bounded_shape=True)
+    if len(npx.exp_args) != K or len(npx.sqrt_args) != K:
+        return
+    for i in range(K):
+        d = x - mi[i]
+        h.ensure(f"component{i}.exponent-is-minus-(x-m)^2-over-2v-of-the-rotated-quadrature", eqv(npx.exp_args[i] * 2 * vi[i], -(d * d)), bounded_shape=True)
+        h.ensure(f"component{i}.normalisation-is-sqrt(2 pi v)-of-the-rotated-quadrature", eqv(npx.sqrt_args[i], 2 * np.pi * vi[i]), bounded_shape=True)
